@@ -22,7 +22,8 @@ CLASSES = [
 ]
 
 LOGIC = Logic(
-    funcs={"IsFile": (["Val[Path]"], "bool"), "ArchRows": (["VersionIndex"], "Seq[Tuple[TaskIdentifier,Version]]")},
+    funcs={"IsFile": (["Val[Path]"], "bool"), "ArchRows": (["VersionIndex"], "Seq[Tuple[TaskIdentifier,Version]]"),
+           "PathOfStr": (["str"], "Val[Path]")},
     globals={"g_idx_pending": "bool", "g_idx_commits": "int", "g_restore_ready": "bool", "g_in_restore": "bool",
              "g_staging": "Val[Path]", "g_copied": "Set[Val[Path]]#copied"},
 )
@@ -45,6 +46,11 @@ CONTRACTS = [
              raises={"OSError+": ["unchanged('region:copied')", "forall(d, 'Val[Path]', implies(old(d in g_dirs), d in g_dirs))"],
                      "Exception+": ["unchanged('region:copied')", "forall(d, 'Val[Path]', implies(old(d in g_dirs), d in g_dirs))"]},
              trusted_reason="A-LIB: shutil.copytree raises FileExistsError if dst exists, otherwise creates a byte-identical copy"),
+    Contract("ext::shutil.move", params={"src": "str", "dst": "str"}, returns="str",
+             requires=[C("never_moves_onto_an_existing_entry", "not (PathOfStr(dst) in g_entries)", "C12", "C08")],
+             modifies=["g_dirs", "g_entries", "g_copied"],
+             trusted_reason="A-LIB: shutil.move(src, dst) renames src to dst when dst does not exist and moves src INSIDE dst when dst is an existing "
+                            "directory -- so it must never be given an existing destination where 'never overwrite / never merge' is promised"),
     Contract("execution/version_index.py::VersionIndex.create_or_load", params={"path": "Val[Path]"}, returns="VersionIndex", extern=True, fresh_result=True,
              raises={"Exception+": []}, trusted_reason="A-SQL: opens the sqlite file (raises on a corrupt file)"),
     Contract("execution/version_index.py::VersionIndex.copy_entries_to", params={"dest": "VersionIndex", "tasks": "Opt[List[TaskIdentifier]]", "latest_only": "bool"},
@@ -53,7 +59,7 @@ CONTRACTS = [
              trusted_reason="A-SQL: INSERTs the selected rows into dest inside its open transaction; a duplicate primary key raises IntegrityError"),
     Contract("execution/version_index.py::VersionIndex.get_all_versions", returns="Seq[Tuple[TaskIdentifier,Version]]", extern=True,
              ensures=["result == ArchRows(self)"], trusted_reason="A-SQL: all rows of the index"),
-    Contract("execution/version_index.py::VersionIndex.rollback_changes", extern=True, modifies=["g_idx_pending"], ensures=["not g_idx_pending"],
+    Contract("ext::VersionIndex.rollback_changes(restore)", modifies=["g_idx_pending"], ensures=["not g_idx_pending"],
              trusted_reason="A-SQL: rollback discards the open transaction (no-op outside one)"),
     Contract("ext::VersionIndex.commit_changes(restore)", modifies=["g_idx_pending", "g_idx_commits"],
              requires=[C("commit_only_after_every_directory_was_copied", "g_restore_ready", "C12", "C06")],
@@ -69,7 +75,7 @@ CONTRACTS = [
              ensures=[]),
 
     Contract(F + "::main", params={"args": "Namespace"}, props=["C12", "C11", "C06", "C08"],
-             prefer_ext={"VersionIndex.commit_changes": "VersionIndex.commit_changes(restore)"},
+             prefer_ext={"VersionIndex.commit_changes": "VersionIndex.commit_changes(restore)", "VersionIndex.rollback_changes": "VersionIndex.rollback_changes(restore)"},
              locals={"archive_version_index": "Opt[VersionIndex]"},
              requires=[C("index_idle", "not g_idx_pending and not g_restore_ready and not g_in_restore")],
              modifies=["g_idx_pending", "g_idx_commits", "g_restore_ready", "g_in_restore", "g_staging", "g_dirs", "g_entries", "g_copied", "$alloc",
